@@ -64,12 +64,24 @@ def _run(case):
     return [r.id for r in after], bad
 
 
-def replay(case):
+def _replay1(case):
     try:
         order, bad = _run(case)
     except Exception as e:
         return {'reproduced': True, 'detail': 'raised %r' % (e,)}
     return {'reproduced': bad is not None, 'detail': bad or 'ok %r' % (order,)}
+
+
+def replay(case):
+    r = _replay1(case)
+    if not r['reproduced'] and case.get('deskew') and case.get('rot_boxes'):
+        # the symbolic run de-skewed with an abstract rotation: the sorter worked on rot_boxes.  The page that has these boxes and
+        # no slanted line is a real input on which the sorter does the same ordering work
+        c2 = dict(case, boxes=case['rot_boxes'], deskew=False)
+        r2 = _replay1(c2)
+        if r2['reproduced']:
+            return {'reproduced': True, 'detail': 'on the page whose regions are the de-skewed boxes %r: %s' % (case['rot_boxes'], r2['detail'])}
+    return r
 
 
 def check_witness(w):
